@@ -252,11 +252,17 @@ HIST_REQS = [["nice", 5], ["nice", 0], ["ionice", 2, 4], ["ionice", 0, None], ["
 T0, T1 = 5000, 9000          # start time of the process the handle is created for / of the process that recycled the pid
 
 
-def _hist(handle, reap, state, req, pre_gone=False):
+def _hist(handle, reap, state, req, pre_gone=False, own=None, getpid_after="same"):
     sit = ("plain", [0, 1, 2, 3, 4, 5], None, 8)
     c = _sim("hist-%s-%s-%s%s" % (handle, reap, state, "-pregone" if pre_gone else ""), sit, req, nice=2, ioprio=(2 << 13) | 6, extra_by=False)
     c["kind"] = "hist"
     c.update(handle=handle, reap=reap, state=state, pre_gone=pre_gone)
+    if own:
+        # wave 8: the handle's pid has the same NUMBER as the observer's os.getpid() when the object is built
+        # (own = "arg": Process(pid), "noarg": Process()); getpid_after = "changed": os.getpid() answers another
+        # number at the time of the call (what a real os.fork() does to an inherited handle)
+        c.update(own=own, getpid_after=getpid_after)
+        c["cls"] = "hist-ownalias-%s-%s-getpid-%s" % (own, state, getpid_after)
     if state == "gone":
         c["procs"] = [p for p in c["procs"] if p["pid"] != c["pid"]]
     return c
@@ -276,6 +282,13 @@ def _hist_cases(rng, tier):
         out.append(_hist("Process", "none", "same", req))
         for state in ("gone", "recycled"):
             out.append(_hist("Popen", rng.choice(["none", "wait", "poll"]), state, req, pre_gone=True))
+    # SYSTEMATIC, never trimmed (wave 8): process-wide "who am I" state.  Every set form x {Process(pid), Process()} built while
+    # os.getpid() == that pid x {pid recycled, gone, same occupant} x {os.getpid() unchanged / changed before the call}
+    for req in reqs:
+        for own in ("arg", "noarg"):
+            for state in ("recycled", "gone", "same"):
+                for ga in ("same", "changed"):
+                    out.append(_hist("Process", "none", state, req, own=own, getpid_after=ga))
     return out
 
 
@@ -885,6 +898,22 @@ def _run_hist(case, coq, env):
             if not case["pre_gone"]:
                 show(self.pid, T0)
 
+    own = case.get("own")
+    real_getpid = os.getpid
+    if own:
+        # no real child: the process the handle is built for exists in the fake tree only, under the number that
+        # os.getpid() answers while the object is built
+        show(case["pid"], T0)
+        os.getpid = lambda: case["pid"]
+        try:
+            p = psutil.Process() if own == "noarg" else psutil.Process(case["pid"])
+        except BaseException:
+            os.getpid = real_getpid
+            raise
+        try:
+            return _run_hist_rest(case, p, None, fp, show, own, real_getpid)
+        finally:
+            os.getpid = real_getpid
     subprocess.Popen = Hooked
     try:
         if case["handle"] == "Popen":
@@ -895,10 +924,22 @@ def _run_hist(case, coq, env):
             p = psutil.Process(child.pid)
     finally:
         subprocess.Popen = real_popen
+    return _run_hist_rest(case, p, child, fp, show, None, real_getpid)
+
+
+def _run_hist_rest(case, p, child, fp, show, own, real_getpid):
+    import copy
+    import resource
+    import signal
+    import time
+    from psutil import _psutil_linux as cext
+    from psutil import _psutil_posix as cext_posix
     pid = p.pid
-    alive = True
+    alive = not own
     try:
-        if case["reap"] != "none" or case["state"] != "same":
+        if own:
+            pass
+        elif case["reap"] != "none" or case["state"] != "same":
             os.kill(pid, signal.SIGKILL)
             alive = False
         if case["reap"] == "wait":
@@ -911,7 +952,7 @@ def _run_hist(case, coq, env):
         elif case["reap"] == "with":
             with p:
                 pass
-        elif not alive:
+        elif not alive and not own:
             os.waitpid(pid, 0)           # somebody else collected it; the handle was not told
         # what the kernel shows under that pid now
         if case["state"] == "gone":
@@ -944,10 +985,14 @@ def _run_hist(case, coq, env):
         try:
             for m, n in saved:
                 setattr(m, n, counted(n) if n in ("setpriority", "proc_ioprio_set", "proc_cpu_affinity_set", "prlimit") else getattr(sk, n))
+            if own and case.get("getpid_after") == "changed":
+                os.getpid = lambda: case["pid"] + 1000
             res = _out(_call(p, case["req"], case.get("form", "pos"), case), _conv, {pid: case["pid"]})
         finally:
             for m, n, f in orig:
                 setattr(m, n, f)
+            if own:
+                os.getpid = real_getpid
         dump = [[case["pid"] if e[0] == pid else e[0]] + e[1:] for e in sk.dump()]
         return [res, dump, bool(calls), [bool(p._gone), bool(p._pid_reused)]]
     finally:
